@@ -51,6 +51,17 @@ CLAIMS["C06"] = (
     "Rules D5 and the member identity in D1 were added after seeds C06-a/b were known.",
     "DESIGN.md 4/C06")
 
+CLAIMS["C19"] = (
+    "typestate dataflow of state.x over the CFG (displaced/accepted, join = displaced), dominance/post-dominance of cap test and iteration count around each objective evaluation, "
+    "intra-iteration reachability from the stepsize reduction",
+    "Static rule discharge over both GradientDescent variants: at every return the state holds the last accepted iterate (the swap that displaced it is undone or superseded by the accepting "
+    "swap on every path); the state is only changed by those swaps, the accepting one only on the exit edge of the descent test with the output of proj; every objective evaluation inside "
+    "a loop is preceded in the same iteration by the cap test and followed by exactly one count; the descent test never uses the stepsize after it was reduced in that iteration and the "
+    "reduction is compensated on loop exit. These hold for all objectives, projections, tolerances and caps because they are facts about every CFG path.",
+    "Value-level monotonicity of the objective across caps follows from the restored iterate plus the descent inequality and is numerical, not decided. The arithmetic of lhs/rhs is "
+    "not checked beyond which stepsize value it reads.",
+    "DESIGN.md 4/C19")
+
 PENDING = {}
 
 NOT_APPLICABLE = {}
